@@ -14,7 +14,8 @@ CHECKS = {
         "explicit-state BFS over operation histories on the real lists to a fixed point under a length cap, lock-step reference list",
         "Every reachable (class, contents, focus) state with list length <= cap is visited and every operation of the alphabet "
         "(all index/slice forms incl. negative, reversed, extended steps) is executed in each on the real MonitoredList/"
-        "MonitoredFocusList/SimpleListWalker/SimpleFocusListWalker and compared with a built-in list plus tracked focus object.",
+        "MonitoredFocusList/SimpleListWalker/SimpleFocusListWalker and compared with a built-in list plus tracked focus object; sort with a key and with a raising key; "
+        "beyond the cap: 300- and 1200-item lists with a focus index above 256, and pairs of lists whose modified listeners change the other list (every pair of mutators).",
         "Trusted: CPython list semantics as reference; unique-token items; bound = list length cap (4 quick / 6 thorough).",
         "DESIGN.md §4 C16",
     ),
@@ -23,8 +24,9 @@ CHECKS = {
         "explicit-state BFS over connect/disconnect/emit/kill histories on the real urwid.signals with behaviour-carrying handlers, lock-step reference connection list",
         "All histories up to the depth bound over 32 connect variants (handler behaviour x argument style), disconnect by key/args, emit on "
         "three (sender, name) pairs, weak-argument death and sender drop are executed on the real Signals object; each emit is judged "
-        "against an ordered list of live connections with per-emit bookkeeping of what changed during the emit. One sender is falsy (an empty list walker). "
-        "Registration: every class shape with <= 2 bases out of {declares a, declares b, metaclass only, plain mixin} x own signals x one more subclass level; a name is accepted iff the MRO declares it.",
+        "against an ordered list of live connections with per-emit bookkeeping of what changed during the emit. One sender is falsy (an empty list walker); two start configurations "
+        "(fresh senders; senders that were disconnected-from before anything was connected), shared handler tables detected when a state is built. "
+        "Registration: every class shape with <= 2 bases out of {declares a, declares b, metaclass only, plain mixin} x own signals x one more subclass level; a name is accepted iff the MRO declares it, and the base classes keep their own sets.",
         "Trusted: CPython refcount semantics for weakref callbacks; bound = depth 4/5, <= 3/4 live connections, recursion depth 1.",
         "DESIGN.md §4 C14",
     ),
@@ -42,7 +44,8 @@ CHECKS = {
         "bounded-exhaustive enumeration: every Unicode scalar value, and every short string over class-representative tokens with boundaries known by construction, x all boundary pairs, columns, trim ranges and encodings",
         "All 1 112 064 scalar values are pushed through the str and UTF-8 byte paths; every string of <= 5/6 tokens over 8 str classes, 7 wide-mode "
         "and 5 narrow-mode byte tokens is checked on every (start, end) boundary pair, every target column and every trim range against the "
-        "per-character (offset, width) list the string was built from; DEC line-drawing translation is checked per character in 4 target encodings.",
+        "per-character (offset, width) list the string was built from; DEC line-drawing translation is checked per character in 4 target encodings; invalid byte strings (incl. forms beyond "
+        "U+10FFFF) must not raise and width must agree with position; set_encoding(e1); use; set_encoding(e2) is compared with a fresh interpreter that only saw e2, for all 16x16 pairs.",
         "Trusted: wcwidth package as the Unicode width table; token widths for wide/narrow byte modes (pair = 2 columns, byte = 1).",
         "DESIGN.md §4 C11",
     ),
@@ -51,7 +54,8 @@ CHECKS = {
         "bounded-exhaustive enumeration of all short texts x widths x wrap modes x alignments x encodings through the real layout and Text.render, judged by an exact greedy reference ('any'), legality rules ('space') and column-window references (clip/ellipsis)",
         "Every string of <= 5/7 characters over [a, b, space, newline, double-width, combining] (and the encodable subsets for euc-jp / iso-8859-1), "
         "as str and as bytes, at every width 1..4/6, wrap mode and alignment: the layout structure is read with an own parser (order, once, "
-        "segment widths, hidden characters, fit, alignment), rows() is compared with rendered rows, and rendered rows with the reference.",
+        "segment widths, hidden characters, fit, alignment), rows() is compared with rendered rows, pack(()) with render(()), and rendered rows with the reference; "
+        "plus an alphabet with a control character and a GBK configuration whose trail bytes reach into ASCII.",
         "Trusted: mc/refs/widths.py cell model (wcwidth); zero-width characters are not compared inside rendered rows.",
         "DESIGN.md §4 C03",
     ),
@@ -69,7 +73,8 @@ CHECKS = {
         "bounded-exhaustive enumeration of byte streams x all cut sets x deviation-bounded time-out firing, through the real Screen.parse_input under a fake event loop, against an independent reference decoder",
         "Every byte string over a 24-byte alphabet up to the length bound in three encoding modes, every documented sequence / mouse / cursor report / "
         "multi-byte character (alone, doubled, next to every alphabet byte, with single-byte substitutions) is decoded whole and in every fragmentation, "
-        "with the completion alarm firing or not after each cut; events, raw-byte accounting and alarm hygiene are compared with mc/refs/keyref.py.",
+        "with the completion alarm firing or not after each cut, and with one wake-up that carries no bytes after any cut; chunks go through the real get_available_raw_input; "
+        "events, raw-byte accounting and alarm hygiene are compared with mc/refs/keyref.py. UTF-8 forms the codec rejects (over-long, surrogates, beyond U+10FFFF) included.",
         "Trusted: golden key table frozen from the pinned tree; xterm ctlseqs for mouse/CPR; time-outs fire only between reads; bounds in evidence.",
         "DESIGN.md §4 C05",
     ),
@@ -88,8 +93,10 @@ CHECKS = {
         "explicit-state BFS over event histories on real ListBoxes with three walker kinds, every reached state rendered and compared with a slice-of-concatenation oracle",
         "From every initial (walker kind, item list, box size) the BFS applies keys, button-1 presses on every row, wheel events, set_focus with every "
         "coming_from, set_focus_valign, resizes and walker insert/append/delete/replace; states are deduplicated on the complete ListBox state; each state "
-        "is rendered and its rows must be a contiguous slice of the items' own renderings with focus/cursor visible and blanks only at the bottom.",
-        "Trusted: unique row texts make the slice decidable; width fixed at 4 columns; depth 2/3; lists of <= 2/3 items + 6 longer ones.",
+        "is rendered (inside the step, as the main loop does) and its rows must be a contiguous slice of the items' own renderings with focus/cursor visible and blanks only at the bottom. "
+        "Also: items changing their height in place, set_focus requests that must hold after the render, positions -1 / len rejected, and pairs (set_focus / set_focus_valign, walker edit or resize) "
+        "with no render in between.",
+        "Trusted: unique row texts make the slice decidable; width fixed at 4 columns; quick depth 2, thorough depth 3 without and depth 2 with the pair operations; lists of <= 2/3 items + 6 longer ones.",
         "DESIGN.md §4 C07",
     ),
     "C19": (
@@ -191,7 +198,9 @@ CHECKS = {
         "thorough: a 6^3 lattice of triples; x select/asyncio/tornado/twisted/zmq/trio x all schedules with <= 2/3 deviations (trio 1/2); clauses alarm-once, alarm-not-early, alarm-order, "
         "alarm-removed-never-runs, remove-true-then-false, alarm-eventually, watch-only-while-registered, watch-eventually, idle-after-callback, idle-removed-never-runs, exit-silent, "
         "raise-once (incl. a second run), only-callback-exceptions, terminates. Part 2: every registration order of up to 7/8 alarms with distinct due times, no removal / each alarm removed "
-        "before run() / from the earliest other alarm's callback (firing order, times, remove results). Part 3: three watches (descriptors 0, 8, 9) and two idle callbacks, every subset removed before run().",
+        "before run() / from the earliest other alarm's callback (firing order, times, remove results), callbacks being functions, functools.partial objects and callable instances. Part 3: three watches "
+        "(descriptors 0, 8, 9) and two idle callbacks, every subset removed before run(). Part 4: two asyncio / tornado loop objects over one underlying loop. Part 5: SystemExit / KeyboardInterrupt / an "
+        "application BaseException raised from alarm, watch and idle callbacks on every loop. A second run() after Boom on select, asyncio, zmq, tornado (no second raise, idle callbacks still served).",
         "Trusted: mc/virt/loops.py environments behave as a legal OS; idle slack 12 ms virtual; trio time tolerance 1 ms (all other loops run on the exact virtual clock); trio explored through its batch-reversal coin only.",
         "DESIGN.md §4 C13",
     ),
